@@ -29,7 +29,7 @@ var (
 )
 
 func TestVP_C17_Exit(t *testing.T) {
-	st := vp.NewStats("C17", "exit", "exit.Handler: histories of open(ok | refused port | forbidden address | destination closes at once | acknowledgement cannot be written | all-zero or low-order initiator key), close, reset, double close, peer disconnect from 2 peers; non-trivial = history contains a failure-path event (dial failure, reset, destination close or peer disconnect with live tunnels)")
+	st := vp.NewStats("C17", "exit", "exit.Handler: histories of open(ok | refused port | forbidden address | destination closes at once | acknowledgement cannot be written | all-zero or low-order initiator key | close, reset or peer cleanup arriving while the acknowledgement is being written), close, reset, double close, peer disconnect from 2 peers; non-trivial = history contains a failure-path event (dial failure, reset, destination close or peer disconnect with live tunnels)")
 	defer st.Flush()
 	vpC17Once.Do(func() {
 		var err error
@@ -98,7 +98,7 @@ func TestVP_C17_Exit(t *testing.T) {
 						}
 					}
 				}
-				kind := rapid.SampledFrom([]string{"ok", "ok", "refused", "forbidden", "dest-closes", "ack-write-fails", "zero-key", "low-order-key"}).Draw(t, "kind")
+				kind := rapid.SampledFrom([]string{"ok", "ok", "refused", "forbidden", "dest-closes", "ack-write-fails", "zero-key", "low-order-key", "closed-at-ack", "peer-gone-at-ack", "reset-at-ack"}).Draw(t, "kind")
 				addr, port := "127.0.0.1", uint16(vpC17Echo.Port)
 				switch kind {
 				case "refused":
@@ -110,6 +110,18 @@ func TestVP_C17_Exit(t *testing.T) {
 				}
 				nrep := len(w.Replies(id))
 				w.SetFailAck(kind == "ack-write-fails")
+				// a peer that reacts to the acknowledgement the moment it is written (its close,
+				// its reset, or its disconnect cleanup runs before the open has returned)
+				switch kind {
+				case "closed-at-ack":
+					w.Set(0, func(pid identity.AgentID, sid uint64) { h.HandleStreamClose(pid, sid) })
+				case "reset-at-ack":
+					w.Set(0, func(pid identity.AgentID, sid uint64) { h.HandleStreamReset(pid, sid, 1) })
+				case "peer-gone-at-ack":
+					w.Set(0, func(pid identity.AgentID, sid uint64) { h.ClosePeerConnections(pid) })
+				default:
+					w.Set(0, nil)
+				}
 				pub := remotePub
 				switch kind {
 				case "zero-key": // no usable ephemeral key from the initiator
@@ -123,6 +135,17 @@ func TestVP_C17_Exit(t *testing.T) {
 					t.Fatalf("VPFAIL C17 no reply to an open request (%s)\n  history: %s", kind, strings.Join(hist, "; "))
 				}
 				w.SetFailAck(false)
+				w.Set(0, nil)
+				if kind == "peer-gone-at-ack" {
+					// the cleanup took every tunnel of that peer with it
+					kept := open[:0]
+					for _, l := range open {
+						if l.peer != p {
+							kept = append(kept, l)
+						}
+					}
+					open = kept
+				}
 				hist = append(hist, fmt.Sprintf("open(%x,%d,%s)=ack:%v", p[0], id, kind, rep.Ack))
 				switch kind {
 				case "ok":
